@@ -53,7 +53,7 @@ Proof. exact (run_IdsOK bname store async_store). Qed.
 (* for ANY list of events without a new stall / drain / creation of q, the seconds left on q's deadline are what they
    were minus the number of clock ticks, as long as that stays positive: the deadline does not fire earlier *)
 Theorem C15_deadline_counts_ticks : forall q es s n,
-  Good store async_store s -> IdsOK s -> In q (ids s) -> timer (conns s q) = Some n ->
+  Good (srow store) async_store s -> IdsOK s -> In q (ids s) -> timer (conns s q) = Some n ->
   forallb (leaves_deadline q) es = true -> (nticks es < n)%nat ->
   timer (conns (fold_left step es s) q) = Some (n - nticks es)%nat.
 Proof. exact (deadline_counts_ticks bname store async_store). Qed.
